@@ -6,7 +6,7 @@
            The model compiler must produce the same instruction sequence and entry points, the target
            semantics must reproduce the real VM on the real code, the MiniGo semantics must reproduce both. *)
 From NG Require Import Common.Tactics Common.HarnessLib.
-From NG Require Export Lang.MiniGo Lang.Target Lang.Compile.
+From NG Require Export Lang.MiniGo Lang.Target Lang.Compile Lang.Assemble.
 Open Scope Z_scope.
 
 (* constructors with Z numerals, so that generated terms need no scope annotations *)
@@ -49,8 +49,9 @@ Inductive obs := RV (v : val) | RF | RX.
 
 Inductive case :=
 | CObs (go vm : Z)
-| CFrag (p : program) (code : list instr) (entries : list Z) (runs : list (Z * list val * obs * obs)).
+| CFrag (p : program) (code : list instr) (entries : list Z) (runs : list (Z * list val * obs * obs))
                                                              (* function, arguments, real VM, Go toolchain *)
+        (script : list Z) (long : list bool).                (* the real script bytes; per instruction: long form? *)
 
 Definition val_eqb (a b : val) : bool :=
   match a, b with
@@ -118,12 +119,29 @@ Definition tgt_steps : nat := 19.   (* 2^19 steps *)
 Definition run_tgt_bin (c : code) (entry : nat) (vs : list val) : tres :=
   match run_bin c tgt_steps (init_state entry vs) with inl r => r | inr _ => TTimeout end.
 
+Fixpoint forallb2 (f : bool -> bool -> bool) (a b : list bool) : bool :=
+  match a, b with
+  | [], [] => true
+  | x :: a', y :: b' => f x y && forallb2 f a' b'
+  | _, _ => false
+  end.
+
 Definition check_case (c : case) : N :=
   match c with
   | CObs go vm => if go =? vm then 0%N else 2%N
-  | CFrag p code ents runs =>
+  | CFrag p code ents runs script long =>
       let ents' := map Z.to_nat ents in
       let seq_ok := list_eqb instr_eqb (compile_program p) code && list_eqb Nat.eqb (entries (nres p) 0%nat p) ents' in
+      (* bytes: the assembler, with the jump widths of the real script, gives the real script; and a jump that
+         the model of the emitter's shortening keeps long is long in the real script (the place holders the
+         real emitter deletes afterwards only lengthen distances: the converse can fail in border cases) *)
+      let bytes_ok :=
+        match assemble_with long (compile_program p) with
+        | Some b => list_eqb Z.eqb b script
+        | None => false
+        end
+        && forallb2 implb (norm_ws (shorten (compile_program p)) 0 (compile_program p))
+                          (norm_ws long 0 (compile_program p)) in
       let per_run := fun (r : Z * list val * obs * obs) =>
         match r with
         | (f, vs, vm, go) =>
@@ -140,6 +158,6 @@ Definition check_case (c : case) : N :=
         end in
       let rs := map per_run runs in
       let spec_ok := forallb fst rs in
-      let model_ok := seq_ok && forallb snd rs in
+      let model_ok := seq_ok && bytes_ok && forallb snd rs in
       if negb spec_ok then 2%N else if model_ok then 0%N else 1%N
   end.
